@@ -27,6 +27,24 @@ PENDING_FINDINGS = os.path.join(VERIF, "pending_repo_patches", "C17_findings.jso
 
 # The configured password: mixed case, a two-byte UTF-8 character, a digit, punctuation.
 PASSWORD = "s3cr\u00e9t-Pw".encode("utf-8")       # é precomposed: c3 a9
+OTHER_PW = b"0ther-passw0rd"                        # a second configured password that must LOSE (overridden)
+_PW, _OT = PASSWORD.decode("utf-8"), OTHER_PW.decode()
+# How the server is GIVEN its password.  In every mode the password in force must be PASSWORD (read from the code: the
+# configuration file is loaded first, the command line is applied on top and overrides only when it carries a password;
+# within one source the last occurrence wins).  cli / file: what the Lean `config` command is told.
+MODES = {
+    "cli-requirepass": dict(kw=dict(password=_PW), cli=[PASSWORD], file=[]),
+    "cli-password-flag": dict(kw=dict(password=_PW, password_flag="--password"), cli=[PASSWORD], file=[]),
+    "cli-twice-last-wins": dict(kw=dict(extra=["--requirepass", _OT, "--password", _PW]), cli=[OTHER_PW, PASSWORD], file=[]),
+    "file-positional": dict(kw=dict(config_lines=["requirepass " + _PW]), cli=[], file=[PASSWORD]),
+    "file-config-flag": dict(kw=dict(config_lines=["# c17", "", "requirepass " + _PW], config_flag="--config"), cli=[], file=[PASSWORD]),
+    "file-c-flag-plus-other-cli-options": dict(kw=dict(config_lines=["timeout 0", "requirepass   " + _PW + "  ", "tcp-keepalive 300"], config_flag="-c",
+                                                       extra=["--loglevel", "notice", "--appendonly", "no", "--dbfilename", "c17.rdb"]), cli=[], file=[PASSWORD]),
+    "file-two-lines-last-wins": dict(kw=dict(config_lines=["requirepass " + _OT, "REQUIREPASS " + _PW]), cli=[], file=[OTHER_PW, PASSWORD]),
+    "both-same": dict(kw=dict(config_lines=["requirepass " + _PW], password=_PW), cli=[PASSWORD], file=[PASSWORD]),
+    "both-different-cli-wins": dict(kw=dict(config_lines=["requirepass " + _OT], password=_PW), cli=[PASSWORD], file=[OTHER_PW]),
+}
+DEFAULT_MODE = "cli-requirepass"
 CANARY_DBS = [0, 1, 5, 15]
 CHAN = b"c17chan"
 
@@ -149,13 +167,17 @@ WRONG_PASSWORDS = [
     ("binary-ff", b"\xff"), ("binary-ff-suffix", PASSWORD + b"\xff"), ("latin1-e", "s3cr\u00e9t-Pw".encode("latin-1")),
     ("decomposed-e", "s3crét-Pw".encode("utf-8")), ("overlong", PASSWORD.replace(b"-", b"\xc0\xad")), ("ascii-e", b"s3cret-Pw"),
     ("very-long", PASSWORD * 3000), ("crlf", PASSWORD + b"\r\n"), ("quoted", b'"' + PASSWORD + b'"'), ("default", b"default"),
-    ("doubled", PASSWORD + PASSWORD), ("suffix-lf", PASSWORD + b"\n"), ("one-byte-off", PASSWORD[:-1] + bytes([PASSWORD[-1] ^ 1])),
+    ("the-overridden-config-password", OTHER_PW), ("doubled", PASSWORD + PASSWORD), ("suffix-lf", PASSWORD + b"\n"), ("one-byte-off", PASSWORD[:-1] + bytes([PASSWORD[-1] ^ 1])),
 ] + [("prefix-len%d" % k, PASSWORD[:k]) for k in range(2, len(PASSWORD) - 1)]      # with "empty", "prefix1", "prefix": EVERY proper prefix
 
 
 # ------------------------------------------------------------------------------------------ the check
 class ControlAuthFailed(Exception):
     """AUTH <exact password> on a fresh connection of a fresh server was not answered +OK"""
+
+
+class ServerOpen(Exception):
+    """a server that was given a password answered a request of its very first, unauthenticated connection"""
 
 
 FALLBACK_NAMES = ("VERIF PING ECHO SET GET INCR DECR INCRBY DECRBY DEL EXISTS EXPIRE TTL SELECT FLUSHDB FLUSHALL DBSIZE SETNX SETEX PSETEX SLEEP CONFIG MGET MSET "
@@ -173,8 +195,8 @@ def canon_class(c):
 
 
 class C17:
-    def __init__(self, rep, seed, tag="c17"):
-        self.rep, self.seed = rep, seed
+    def __init__(self, rep, seed, tag="c17", mode=DEFAULT_MODE):
+        self.rep, self.seed, self.mode = rep, seed, mode
         self.model = lean_driver("auth")
         self.tables = self.ask("tables")
         kv = dict(x.split("=", 1) for x in self.tables.split(" "))
@@ -205,14 +227,31 @@ class C17:
         return a
 
     # ---- server life cycle (a server that dies is an observation, after which a new one is started)
-    def start_server(self):
+    def start_server(self, mode=None):
+        if mode is not None:
+            self.mode = mode
         if self.srv is not None:
+            for b in getattr(self, "bystanders", []):
+                b[0].close()
             self.srv.stop()
-        self.srv = Server(self.tag, password=PASSWORD.decode("utf-8"))
-        if self.ask("reset " + hx(PASSWORD)) != "ok":
-            raise InternalError("model reset failed")
+        M = MODES[self.mode]
+        # probe=False: nobody connects before us, so the first bystander below is the FIRST connection the server ever accepts
+        self.srv = Server(self.tag, probe=False, **M["kw"])
+        a = self.ask("config %s %s" % ("|".join(hx(x) for x in M["cli"]) or ".", "|".join(hx(x) for x in M["file"]) or "."))
+        self.model_password, self.spec_password = (x.split("=")[1] for x in a.split(" "))
+        if self.spec_password != hx(PASSWORD):
+            raise InternalError("mode %s: the Spec's password is %s" % (self.mode, self.spec_password))
+        # bystanders: connections that never send AUTH and stay open for the life of this server; every case ends by probing them
+        self.bystanders = []
+        for label in ("first-accepted", "second-accepted"):
+            c = self.srv.client()
+            self.bystanders.append((c, self.m_accept(expect=None), label))
+        r = self.bystanders[0][0].cmd(*PROBE_ARGS)
+        self.ask("frame %d %s" % (self.bystanders[0][1], PROBE.line()))
+        if not (r[0] == "e" and r[1].startswith(b"NOAUTH")):
+            raise ServerOpen(r)
         self.ctl = self.srv.client()
-        self.m_accept()                      # the control connection exists in the model too (id 0 of this epoch)
+        self.m_accept(expect=None)           # the control connection exists in the model too
         self.ctl_id = self.next_conn - 1
         r = self.ctl.cmd("AUTH", PASSWORD)
         m = self.ask("frame %d cmd %s %s" % (self.ctl_id, hx(b"AUTH"), hx(PASSWORD)))
@@ -235,8 +274,32 @@ class C17:
         self.baseline = self.observe()
         self.model_replicas = 0
 
+    def probe_bystanders(self, rec):
+        """every OTHER live connection that never sent AUTH — in particular the first one the server accepted — must still be
+        locked out: rights are per connection, whatever path (EXEC, a script, a substitute connection id) an AUTH went through"""
+        for i, (c, cid, label) in enumerate(list(self.bystanders)):
+            try:
+                r = c.cmd(*PROBE_ARGS)
+            except (Closed, OSError, ProtocolError):
+                # closed by the server (not expected: no idle time-out is configured): replace it, it is no longer the first
+                c.close()
+                self.ask("drop %d" % cid)
+                self.bystanders[i] = (self.srv.client(), self.m_accept(expect=None), label + "-reopened")
+                self.rep.count("bystander.reopened")
+                continue
+            m = self.ask("frame %d %s" % (cid, PROBE.line())).split(" # ")
+            a = "err-noauth" if r[0] == "e" and r[1].startswith(b"NOAUTH") else "err" if r[0] == "e" else "d " + show_reply(r)
+            if m[1] == "must-refuse" and not a.startswith("err"):
+                rec["problems"].append({"kind": "oracle", "bystander": label,
+                                        "why": "a connection that never sent AUTH has rights (%s connection of this server: GET c17:n -> %s)" % (label, a)})
+            elif m[0] not in ("unknown", a):
+                rec["problems"].append({"kind": "model", "why": "bystander %s: impl %s, model %s" % (label, a, m[0])})
+        self.rep.count("bystander.probes", len(self.bystanders))
+
     def close(self):
         try:
+            for b in getattr(self, "bystanders", []):
+                b[0].close()
             self.ctl.close()
         except Exception:
             pass
@@ -244,11 +307,11 @@ class C17:
             self.srv.stop()
         self.model.close()
 
-    def m_accept(self):
+    def m_accept(self, expect="connected"):
         c = self.next_conn
         self.next_conn += 1
         st = self.ask("accept %d" % c)
-        if st != "connected":
+        if expect is not None and st != expect:
             raise InternalError("model: a fresh connection of a password-protected server is %r" % st)
         return c
 
@@ -374,7 +437,7 @@ class C17:
             u = self.srv.client()
         uid = self.m_accept()
         rec = {"case": {"tag": case["tag"], "pre": [q.to_json() for q in case["pre"]], "other_auth": case.get("other_auth", False),
-                        "pipe": [q.to_json() for q in case["pipe"]], "target": case["target"], "cuts": case.get("cuts", [])},
+                        "pipe": [q.to_json() for q in case["pipe"]], "target": case["target"], "cuts": case.get("cuts", []), "mode": self.mode},
                "impl": [], "code": [], "spec": [], "problems": []}
         self.cur = rec
         leaked_here = 0
@@ -431,6 +494,7 @@ class C17:
                 pass
             # -- the control connection looks at the server (and writes: replicas and monitors would be told)
             obs = self.observe()
+            self.probe_bystanders(rec)
             self.nonce += 1
             nonce = b"c17-sentinel-%d" % self.nonce
             how = "closed"
@@ -524,6 +588,63 @@ class C17:
             rec["problems"].append({"kind": "model", "why": "model says the connection closes after the batch, impl: %s" % how, "stage": stage})
         if stage == "pipe" and state_after != "closing" and how != "sentinel":
             rec["problems"].append({"kind": "oracle", "why": "connection unusable after refused requests (%s)" % how, "stage": stage})
+
+    # ---- connection-state commands executed indirectly (inside EXEC, inside a script) by an authenticated connection
+    def indirect_session(self, tag, writes):
+        """B authenticates and sends `writes` (each a list of Req sent in one write).  Commands that change the state of "the
+        connection" (AUTH, SELECT, CLIENT SETNAME, SUBSCRIBE, MONITOR ...) reach their handlers through paths that substitute
+        another connection id (a literal id inside EXEC) or have none (scripts): they must affect the issuing connection or
+        nobody.  Afterwards EVERY other live connection is probed (the bystanders: first- and second-accepted, never sent
+        AUTH), CLIENT LIST must show them unnamed on database 0, and the control connection's view must be unchanged."""
+        rec = {"case": {"tag": tag, "mode": self.mode, "session": "indirect", "pre": [],
+                        "writes": [[q.to_json() for q in w] for w in writes]}, "problems": [], "impl": [], "code": [], "spec": []}
+        self.cur = rec
+        try:
+            b = self.srv.client()
+            bid = self.m_accept(expect=None)
+            try:
+                r = b.cmd("AUTH", PASSWORD)
+                self.ask("frame %d cmd %s %s" % (bid, hx(b"AUTH"), hx(PASSWORD)))
+                if r != ("s", b"OK"):
+                    rec["problems"].append({"kind": "oracle", "why": "the exact password does not authenticate: %r" % (r,)})
+                    return rec
+                shown = []
+                for w in writes:
+                    b.send_raw(b"".join(q.wire() for q in w))
+                    for q in w:
+                        try:
+                            shown.append(show_reply(b.read_reply(2.0))[:60])
+                        except (Closed, OSError, ProtocolError) as e:
+                            shown.append("closed:" + type(e).__name__)
+                            break
+                rec["impl"] = [{"stage": "indirect", "replies": shown}]
+                self.rep.nontrivial(("indirect", tag, tuple(x[:12] for x in shown)))
+                mine = {c.s.getsockname()[1]: label for c, _, label in self.bystanders}
+                cl = self.ctl.cmd("CLIENT", "LIST")
+                for line in (cl[1].decode("latin-1").splitlines() if cl[0] == "b" else []):
+                    kv = dict(x.split("=", 1) for x in line.split(" ") if "=" in x)
+                    port = int(kv.get("addr", ":0").rsplit(":", 1)[-1] or 0)
+                    if port in mine and (kv.get("name", "") != "" or kv.get("db", "0") != "0"):
+                        rec["problems"].append({"kind": "oracle", "bystander": mine[port],
+                                                "why": "a command of another connection changed the %s connection: CLIENT LIST shows %s" % (mine[port], line[:120])})
+                obs = self.observe()
+                diff = [(x, y) for x, y in zip(self.baseline, obs) if x != y]
+                if diff:
+                    rec["problems"].append({"kind": "model", "why": "indirect session changed what the control connection sees: %s" % diff[:3]})
+                    self.baseline = obs
+                self.probe_bystanders(rec)
+            finally:
+                b.close()
+                self.ask("drop %d" % bid)
+        except (OSError, Closed, ProtocolError) as e:
+            rec["problems"].append({"kind": "oracle", "lost": True, "why": "control connection / server lost in an indirect-execution session (%s: %s)" % (type(e).__name__, e)})
+            self.start_server()
+            return rec
+        self.rep.evaluations += 1
+        self.rep.count("indirect-session")
+        if any(p["kind"] == "oracle" for p in rec["problems"]):
+            self.start_server()                  # somebody has rights he should not have: later cases get a clean server
+        return rec
 
     # ---- an authenticated connection blocks with frames kept back; an unauthenticated one next to it
     def waiters(self, key):
@@ -659,6 +780,7 @@ class C17:
 
 # ------------------------------------------------------------------------------------------ case generation
 PROBE = Req(b"GET", [b"c17:n"])       # benign: shows whether the connection got through the gate
+PROBE_ARGS = ("GET", "c17:n")
 
 
 def states(r, tier):
@@ -790,11 +912,14 @@ def main(tier, seed):
     findings = load_findings()
     try:
         c17 = C17(rep, seed)
-    except ControlAuthFailed as e:
-        # nothing can be explored without a control connection, and this IS a failure of the property
-        rep.violation("C17: the exact password does not authenticate a fresh connection of a fresh server (reply %r)" % (e.args[0],),
-                      {"replay": {"case": {"tag": "control-auth", "pre": [], "other_auth": False, "target": 0, "cuts": [],
-                                           "pipe": [Req(b"AUTH", [PASSWORD]).to_json()]}, "impl": [repr(e.args[0])], "spec": ["auth-ok"]},
+    except (ControlAuthFailed, ServerOpen) as e:
+        # nothing can be explored without a locked server and a control connection, and this IS a failure of the property
+        opened = isinstance(e, ServerOpen)
+        rep.violation(("C17: a server started with --requirepass answered the request of its first, unauthenticated connection (GET c17:n -> %r)" if opened else
+                       "C17: the exact password does not authenticate a fresh connection of a fresh server (reply %r)") % (e.args[0],),
+                      {"replay": {"case": {"tag": "first-connection-probe" if opened else "control-auth", "mode": DEFAULT_MODE, "pre": [], "other_auth": False,
+                                           "target": 0, "cuts": [], "pipe": [(PROBE if opened else Req(b"AUTH", [PASSWORD])).to_json()]},
+                                  "impl": [repr(e.args[0])], "spec": ["must-refuse" if opened else "auth-ok"]},
                        "family": "auth", "password": hx(PASSWORD)})
         return rep.finish()
     recs = []
@@ -813,6 +938,9 @@ def main(tier, seed):
         budget = Budget()
         # -- 1. only the exact password authenticates: decided first, with nothing hostile on the connection
         recs += wrong_password_family(c17, budget)
+        # -- 1a. connection-state commands executed indirectly (EXEC's substitute connection id, scripts): nobody else is promoted
+        if not budget.spent():
+            recs += indirect_family(c17, budget)
         # -- 1b. blocking commands and the frames kept back behind them
         if not budget.spent():
             recs += blocked_family(c17, r, tier, sts, budget)
@@ -836,6 +964,9 @@ def main(tier, seed):
             else:
                 recs += random_phase(c17, r, 300, 60)
                 recs += split_phase(c17, r, 60)
+        # -- 5. the same server GIVEN its password in every other supported way
+        if not budget.spent():
+            recs += config_family(c17, r, tier, sts, reqs, budget)
         if budget.spent():
             rep.extra["stopped_early"] = "after %d cases with oracle failures" % budget.n
         rep.traces_validated = rep.evaluations
@@ -895,6 +1026,79 @@ def wrong_password_family(c17, budget):
     return recs
 
 
+def indirect_family(c17, budget):
+    """state-changing connection commands through MULTI/EXEC (substitute connection id) and through scripts, by an authenticated
+    connection, with the first- and second-accepted connections standing by unauthenticated"""
+    recs = []
+    M, E = Req(b"MULTI", []), Req(b"EXEC", [])
+    auth, wrong = Req(b"AUTH", [PASSWORD]), Req(b"AUTH", [b"wrong-password"])
+    sel, name = Req(b"SELECT", [b"1"]), Req(b"CLIENT", [b"SETNAME", b"intruder"])
+    sub, psub, mon = Req(b"SUBSCRIBE", [CHAN]), Req(b"PSUBSCRIBE", [b"*"]), Req(b"MONITOR", [])
+    script = Req(b"EVAL", [b"return {redis.pcall('AUTH', ARGV[1]), redis.pcall('SELECT', '1'), redis.pcall('CLIENT', 'SETNAME', 'intruder')}", b"0", PASSWORD])
+    variants = [
+        ("multi;auth;exec/separate-writes", [[M], [auth], [E]]),
+        ("multi;auth;exec/one-write", [[M, auth, E]]),
+        ("multi;auth-wrong;auth;exec", [[M, wrong, auth, E]]),
+        ("multi;auth;select;client-setname;exec", [[M, auth, sel, name, E]]),
+        ("multi;subscribe;psubscribe;monitor;exec", [[M, sub, psub, mon, E], [Req(b"UNSUBSCRIBE", []), Req(b"PUNSUBSCRIBE", [])]]),
+        ("multi;auth;exec;twice", [[M, auth, E], [M, auth, auth, E]]),
+        ("script:auth,select,setname", [[script]]),
+        ("multi;script;exec", [[M, script, E]]),
+        ("plain:auth-again;auth-wrong;select;setname", [[auth, wrong, sel, name]]),
+    ]
+    for tag, writes in variants:
+        rec = c17.indirect_session("indirect/" + tag, writes)
+        budget.note(rec)
+        if rec["problems"]:
+            recs.append(rec)
+        if budget.spent():
+            break
+    return recs
+
+
+def config_family(c17, r, tier, sts, reqs, budget):
+    """how the password was configured is a dimension: command line (either flag, twice), configuration file (positional,
+    --config, -c with other options, two lines), both (same / different: the command line wins).  A server that was GIVEN a
+    password by any supported means must refuse unauthenticated requests: under each mode the first-accepted connection is
+    probed before anything else, the password that must have lost is refused, then the wrong-password family, the
+    indirect-execution family and a sample of the gate matrix run."""
+    recs = []
+    for mode in [m for m in MODES if m != DEFAULT_MODE]:
+        c17.rep.count("config-mode." + mode)
+        try:
+            c17.start_server(mode)
+        except (ServerOpen, ControlAuthFailed) as e:
+            M = MODES[mode]
+            opened = isinstance(e, ServerOpen)
+            rec = {"case": {"tag": "config/%s/%s" % (mode, "first-connection-probe" if opened else "control-auth"), "mode": mode, "pre": [], "other_auth": False,
+                            "pipe": [PROBE.to_json() if opened else Req(b"AUTH", [PASSWORD]).to_json()], "target": 0, "cuts": [],
+                            "server_argv": c17.srv.argv[1:], "config_lines": M["kw"].get("config_lines")},
+                   "impl": [{"stage": "pipe", "classes": [show_reply(e.args[0])]}], "code": [], "spec": [{"stage": "pipe", "verdicts": ["must-refuse" if opened else "auth-ok"]}],
+                   "problems": [{"kind": "oracle", "why": (
+                       "unauthenticated GET c17:n answered %s by a server GIVEN a password (mode %s: file %s, argv %s)" if opened else
+                       "AUTH <password> answered %s by the server that was given it (mode %s: file %s, argv %s)") % (
+                           show_reply(e.args[0]), mode, M["kw"].get("config_lines"), " ".join(c17.srv.argv[1:]))}]}
+            c17.rep.evaluations += 1
+            budget.n += 1
+            recs.append(rec)
+            continue
+        c17.rep.nontrivial(("config-mode", mode, c17.model_password == hx(PASSWORD)))
+        if c17.model_password != hx(PASSWORD) and not c17.blind:
+            recs.append({"case": {"tag": "config/%s/model-password" % mode, "mode": mode, "pre": []}, "impl": [], "code": [], "spec": [],
+                         "problems": [{"kind": "model", "why": "mode %s: the model's password in force is %s" % (mode, c17.model_password)}]})
+        recs += wrong_password_family(c17, budget)
+        if budget.spent():
+            break
+        recs += indirect_family(c17, budget)
+        sample = [(l, f, q) for (l, f, q) in reqs if f == "typical" and not l.startswith("hostile:")] + \
+                 [(l, f, q) for (l, f, q) in reqs if l.startswith("hostile:")][:40:2] + [(l, f, q) for (l, f, q) in reqs if l.startswith("malformed")]
+        recs += matrix(c17, r, "quick", sts[:2] if tier == "quick" else sts[:2] + sts[-3:], sample, budget, fixed_situations=True)
+        if budget.spent():
+            break
+    c17.start_server(DEFAULT_MODE)
+    return recs
+
+
 def blocked_family(c17, r, tier, sts, budget):
     """frames kept back behind a blocking command (`Connection::deferred_frames`): (a) an unauthenticated connection cannot
     block, so `BLPOP k 0; GET canary` is two refusals at once and nothing is parked — in every situation; (b) an
@@ -924,12 +1128,12 @@ def blocked_family(c17, r, tier, sts, budget):
     return recs
 
 
-def matrix(c17, r, tier, sts, reqs, budget):
+def matrix(c17, r, tier, sts, reqs, budget, fixed_situations=False):
     rep = c17.rep
     recs = []
     special = REPLICATION_LIKE | set(c17.pre_gate) | set(c17.guarded) | set(c17.unknown)
     for label, form, q in reqs:
-        if tier == "thorough":
+        if tier == "thorough" or fixed_situations:
             use = sts
         else:
             use = sts[:2] + [sts[2 + r.below(len(sts) - 2)] for _ in range(3)]
@@ -941,7 +1145,10 @@ def matrix(c17, r, tier, sts, reqs, budget):
         plan = []
         for i, (st_tag, pre, other) in enumerate(use):
             ps = list(positions(q))
-            if repl and (tier == "quick" or i < 2 or i % 4 == 2):
+            if fixed_situations:
+                # a sample under another way of configuring the password: alone; replication-like names also in one write with failed AUTHs
+                ps = ps[:1] + (ext if repl and i == 0 else [])
+            elif repl and (tier == "quick" or i < 2 or i % 4 == 2):
                 ps += ext
             elif not repl and i < 2 and tier == "thorough":
                 ps += ext
@@ -1097,10 +1304,20 @@ def replay(path):
     run_translator()
     build_driver("auth")
     build_server()
-    c17 = C17(rep, obj.get("seed", 0), tag="c17replay")
+    case = rp["case"]
     try:
-        case = rp["case"]
-        if "pipe" not in case:
+        c17 = C17(rep, obj.get("seed", 0), tag="c17replay", mode=case.get("mode", DEFAULT_MODE))
+    except (ServerOpen, ControlAuthFailed) as e:
+        print("case  :", case["tag"], "(mode %s)" % case.get("mode", DEFAULT_MODE))
+        print("  oracle: %s: %r" % ("the server answered its first, unauthenticated connection" if isinstance(e, ServerOpen) else
+                                    "the password given to the server does not authenticate", e.args[0]))
+        print("REPLAY still fails")
+        return 1
+    try:
+        if case.get("session") == "indirect":
+            rec = c17.indirect_session(case["tag"], [[Req.from_json(o) for o in w] for w in case["writes"]])
+            rec.setdefault("spec", [])
+        elif "pipe" not in case:
             rec = c17.authenticated_session([Req.from_json(o) for o in case.get("pre", [])])
         else:
             rec = c17.run_case({"tag": case["tag"], "pre": [Req.from_json(o) for o in case["pre"]], "other_auth": case.get("other_auth", False),
